@@ -208,6 +208,23 @@ class SrcGen:
                 body.append(("IHook", r.random() < 0.7, "turn_end", r.choice(self.names)))
             else:
                 body.append(("IText", self.pieces(scope), False))
+        if r.random() < 0.2:
+            # runs of blank lines around and between blocks (the two whitespace normalisations meet here)
+            k1, k2 = r.randint(1, 3), r.randint(0, 3)
+            body += [self.if_item(scope, self.depth)] + [("IBlank",)] * k1 + [self.if_item(scope, self.depth) if r.random() < 0.7 else
+                                                                              self.for_item(scope, self.depth)] + [("IBlank",)] * k2
+            if r.random() < 0.5:
+                body.append(("IText", self.pieces(scope), False))
+            self.tag("blank-run-between-blocks")
+        if r.random() < 0.2:
+            # the same variable shown before a block, rebound by a statement inside the block, shown again after it
+            v = r.choice(["a", "b", "c", "n"])
+            inner = [("IStmt", f"{v} = {v} + {r.randint(1, 5)}")]
+            if r.random() < 0.5:
+                inner.append(("IText", [("T", "inside "), ("E", v)], False))
+            blk = ("IIf", [(r.choice(["True", "a == a", "xs"]), inner, [])]) if r.random() < 0.6 else ("IFor", "q", "[1, 2]", inner, [])
+            body += [("IText", [("T", "Before "), ("E", v)], False), blk, ("IText", [("T", "After "), ("E", v)], r.random() < 0.2)]
+            self.tag("rebound-in-block-shown-after")
         if name != "Start" and r.random() < 0.2:
             t = r.choice([n for n in self.names if n != name] or self.names)
             body.append(("IJump", t, self.call_args(t, scope)))
@@ -593,7 +610,13 @@ def run(tier: str, seed: int) -> int:
                     S.story(real, tb2)
                     opsT = coq_list(R.op_term(x["op"], tb2) for x in recs[1:])
                     exp = coq_list(f"({R.obs_term(x['obs'])}, {R.view_term(x['view'])})" for x in recs)
-                    pterms.append(f"({t_story(ast_)}, {tb2.term()}, {opsT}, {exp})")
+                    term = f"({t_story(ast_)}, {tb2.term()}, {opsT}, {exp})"
+                    if len(term) > 200000:
+                        # a play whose text grows without bound (a list appended to inside a loop over itself, repeated over
+                        # the history): judged by the reference comparison of shorter plays only
+                        stats["play_term_too_large"] = stats.get("play_term_too_large", 0) + 1
+                        continue
+                    pterms.append(term)
                     pmeta.append((sub, src, recs))
                 except Unsupported:
                     stats["unsupported"] += 1
